@@ -338,3 +338,44 @@ pub fn write_outcome<S: Src>(s: &mut S, g: usize) {
     std::mem::forget(cpu);
     verdict!("write_outcome" => ok_outcome, "readback" => ok_readback);
 }
+
+/// Two byte writes at SYMBOLIC addresses followed by a probe read at a third symbolic address, on the real
+/// `Bus::read`/`Bus::write` and the real RAM / vector / I/O arrays.  `dram_window` = 0: no access falls
+/// into DRAM (its array is replaced by one byte, see `stubs::bus_new_dram`); otherwise every DRAM access is
+/// assumed to lie in the first `dram_window` bytes of DRAM.  Decides "no aliasing / persistence" for every
+/// pair of write addresses and every probe address of those regions, interior addresses included.
+pub fn sym_write_probe<S: Src>(s: &mut S, dram_window: u32) {
+    let a1 = s.u32();
+    let v1 = s.u8();
+    let a2 = s.u32();
+    let v2 = s.u8();
+    let probe = s.u32();
+    let in_dram = |a: u32| a >= 0x400000 && a <= 0x5fffff;
+    let dram_ok = |a: u32| !in_dram(a) || (dram_window > 0 && a - 0x400000 < dram_window);
+    s.assume(dram_ok(a1) && dram_ok(a2) && dram_ok(probe));
+    s.assume(!mem::side_effect_reg(a1) && !mem::side_effect_reg(a2));
+    let mut cpu = Cpu::new();
+    let r1 = cpu.bus.write(a1, v1);
+    let r2 = cpu.bus.write(a2, v2);
+    let r = cpu.bus.read(probe);
+    let ok_outcome = r1.is_ok() == mem::accessible(a1) && r2.is_ok() == mem::accessible(a2);
+    let ok_class = r.is_ok() == mem::accessible(probe);
+    let expect = if probe == a2 && mem::accessible(a2) {
+        v2
+    } else if probe == a1 && mem::accessible(a1) {
+        v1
+    } else {
+        0
+    };
+    let ok_value = match r {
+        Ok(v) => v == expect,
+        Err(_) => true,
+    };
+    witness!(r.is_ok() && probe == a1 && a1 != a2 && v1 != 0 && a1 >= 0xffbf20, "probe reads the first write (RAM or I/O)");
+    witness!(r.is_ok() && probe == a2 && a1 == a2 && v1 != v2, "second write to the same address wins");
+    witness!(r.is_ok() && probe != a1 && probe != a2 && r1.is_ok() && r2.is_ok(), "probe elsewhere");
+    witness!(when: dram_window > 0, r.is_ok() && in_dram(probe) && probe == a1 && v1 != 0, "DRAM write read back");
+    witness!(r1.is_err() && a1 > 0xffffff && (a1 & 0xffffff) == probe && r.is_ok(), "write above 2^24 whose low bits are mapped");
+    std::mem::forget(cpu);
+    verdict!("write_outcome" => ok_outcome, "probe_classification" => ok_class, "probe_value" => ok_value);
+}
